@@ -11,7 +11,7 @@ RUN_MODULE = "Spec.TTLMap Model.Tags Model.Txn Model.TxnFault Run.C16"
 EXPLAIN = "explain"
 RULE = ("12 transactional programs (set / incr / delete / set_many / get over keys a, b, optionally a second backend registered under prefix "
         "'p:') x 3 modes, the block written as a context manager, as a decorated function, or with mode and timeout taken from set_transaction_mode / set_transaction_timeout; a clean run records the trace of underlying backend commands (set_lock, get, delete_many, set_many, unlock ...); then "
-        "EVERY single position of that trace is made to raise (quick) and every pair of positions (thorough), in a fresh cache each time; "
+        "EVERY single position and EVERY pair of positions of that trace is made to raise (quick), and every triple (thorough), in a fresh cache each time; "
         "observed: exception seen by the caller, whether a write issued right after the block reaches the store, lock keys left, data of both "
         "stores. non-trivial: the fault hits the commit or the lock release (not the first body command)")
 TRUSTED_BASE = ["Coq 8.16.1 kernel + vm_compute", "hand-written model coq/Model/TxnFault.v (try/finally and context-manager exit order transcribed) tied by this differential run",
@@ -53,13 +53,11 @@ def gen_cases(rng, tier):
             cases.append(dict(base, faults=[]))
             for p in range(n):
                 cases.append(dict(base, faults=[p]))
+            for p, q in itertools.combinations(range(n + 1), 2):       # every pair of positions (cheap: a few seconds in all)
+                cases.append(dict(base, faults=[p, q]))
             if tier == "thorough":
-                for p, q in itertools.combinations(range(n + 1), 2):
-                    cases.append(dict(base, faults=[p, q]))
-            else:
-                for _ in range(min(4, n)):
-                    p, q = sorted(rng.sample(range(n + 1), 2))
-                    cases.append(dict(base, faults=[p, q]))
+                for t in itertools.combinations(range(n + 1), 3):       # and every triple
+                    cases.append(dict(base, faults=list(t)))
     return cases
 
 
